@@ -325,7 +325,7 @@ PROPS = {
         "partial": [],
         "n_quick": 4000, "n_thorough": 300000,
         "nontrivial": _c07_nontrivial, "tags": _c07_tags, "shrink": _c07_shrink,
-        "rule": "requests `scan k p seq score container` generated from one xorshift state (alphabet 1-4; uniform, tandem-repeat, "
+        "rule": "one request in ten is `sscan k p rc perm read`: the deprecated wrapper simple_scan (an observation point of C07) with a permutation score, judged on tiling, lengths and bucket = canonical rank of a minimal p-mer lying in every k-mer of the interval. The others: requests `scan k p seq score container` generated from one xorshift state (alphabet 1-4; uniform, tandem-repeat, "
                 "homopolymer, s++rc(s) and chunk-pasted sequences; k = p..p+12 incl. k = p; scores: random permutation table, "
                 "rank mod 3, random 0..3, rc-symmetric, linear-hash mod {1,2,3,5,17,1000,1000003}, constant; containers DnaSlice, "
                 "DnaString, Lmer3; 2.5% sequences shorter than k). Non-trivial = the real scan returned at least two intervals; "
